@@ -30,23 +30,23 @@ pub(super) fn preprocess_type_generic_headers(db: &mut DbIndex, context: &mut An
             pending_header.generic_decl_list,
         );
 
-        resolved_headers.push((type_id, params));
+        resolved_headers.push((type_id, pending_header.file_id, params));
     }
 
     // 先写入 raw metadata, 让后续 normalize 能跨类型看到所有泛型默认值.
-    for (type_id, params) in &resolved_headers {
+    for (type_id, file_id, params) in &resolved_headers {
         if !params.is_empty() {
             db.get_type_index_mut()
-                .add_generic_params(type_id.clone(), params.clone());
+                .add_generic_params(type_id.clone(), *file_id, params.clone());
         }
     }
 
     // 再补齐 constraint/default 类型表达式里的泛型实参并覆盖 raw metadata.
-    for (type_id, params) in resolved_headers {
+    for (type_id, file_id, params) in resolved_headers {
         let normalized_params = normalize_generic_params(db, &params);
         if !normalized_params.is_empty() {
             db.get_type_index_mut()
-                .add_generic_params(type_id, normalized_params);
+                .add_generic_params(type_id, file_id, normalized_params);
         }
     }
 }
